@@ -359,6 +359,16 @@ class C05(SolverSuite):
         return [C05Monitor()]
 
     def gen_plan(self, rng, tier, run_seed):
+        if rng.random() < 0.03:
+            # driver-stepped (no stop rule) onto a box corner until double precision is exhausted: the trial points approach
+            # the bound to within rounding of the cube-to-box map (defect 11)
+            N = rng.choice([1, 1, 1, 2])
+            lower, upper = objectives.gen_box(rng, N)
+            spec = {"kind": "solver", "objective": objectives.gen_spec(rng, N, lower, upper, ["linear"]), "lower": lower, "upper": upper,
+                    "params": {"r": G.gen_r(rng), "eps": 1e-9, "itersLimit": 500, "evolventDensity": 10, "refineSolution": False},
+                    "listeners": []}
+            ops = [{"a": "S0", "op": "create"}] + [{"a": "S0", "op": "iterate", "k": k} for k in G.gen_batches(rng, rng.randint(56, 80) * N)]
+            return G.base_plan(self.prop, run_seed, {"S0": spec}, ops, clock=G.gen_clock(rng), corner_run=True)
         L = rng.randint(3, 60)
         spec = G.gen_actor(rng, max_iters=L, families=ADVERSARIAL if rng.random() < 0.8 else None,
                            refine=(rng.random() < 0.6), shipped_prob=0.1, small_iters_prob=0.1)
